@@ -58,8 +58,10 @@ class P:
         p = os.path.join(vf.ROOT, ".build", "extract.json")
         if os.path.exists(p):
             ex = json.load(open(p))
+        # only what concerns the information model tables; a table the translator cannot read is a broken tie, not a failing input
+        mine = [q for q in (ex.get("problems") or []) if q.startswith(("FieldType", "InfoModel", "scripts/ipfix.elements"))]
         return {"coverage": {"exhaustive": True, "translator": ex.get("infomodel", {}), "translator_notes": ex.get("problems") or []},
-                "violations": [{"cases": [], "verdict": "translator could not read the tables: %s" % ex.get("problems")}] if ex.get("problems") else []}
+                "violations": [{"cases": [], "no_failing_input": True, "verdict": "translator could not read the information model tables: %s" % mine[:5]}] if mine else []}
 
     def rule(self):
         return ("finite and exhaustive: all entries of both generated tables are checked by vm_compute reflection in the kernel; "
